@@ -11,6 +11,17 @@ from . import ir
 from .interp import Interp, Obj, Ptr, REAL
 
 _MODULES = {}
+HANDLES = {}       # opaque integer handle -> Ptr (C pointers that travel through Python as c_void_p)
+_NEXT = [0x7E0000000000]
+
+
+def handle_of(p):
+    for h, q in HANDLES.items():
+        if q.obj is p.obj and q.off == p.off:
+            return h
+    _NEXT[0] += 64
+    HANDLES[_NEXT[0]] = p
+    return _NEXT[0]
 
 
 def module(cfile, openmp=False):
@@ -49,6 +60,8 @@ def to_arg(interp, a, name="arg"):
     if isinstance(a, ctypes.c_double):
         return _dbl(a.value)
     if isinstance(a, ctypes.c_void_p):
+        if a.value in HANDLES:
+            return HANDLES[a.value]
         return Ptr(REAL, a.value or 0)
     if isinstance(a, S):
         return a.e
@@ -70,7 +83,7 @@ def _dbl(x):
     return dag.const(float_to_fraction(float(x)))
 
 
-def install(ctx, libname, cfile, fnames, hybrid=True, stats=None):
+def install(ctx, libname, cfile, fnames, hybrid=True, stats=None, setup=None):
     """route calls to `libname.<fn>` in the symbolic context into the interpreter"""
     lib = ctx.load_library(libname)
 
@@ -78,7 +91,11 @@ def install(ctx, libname, cfile, fnames, hybrid=True, stats=None):
         def handler(*args):
             m = module(cfile)
             it = Interp(m, hybrid=hybrid)
+            if setup is not None:
+                setup(it)
             r = it.call(fn, [to_arg(it, a, "%s.arg%d" % (fn, k)) for k, a in enumerate(args)])
+            if isinstance(r, Ptr):
+                r = handle_of(r) if r.obj is not REAL else r.off
             if stats is not None:
                 stats["instructions"] = stats.get("instructions", 0) + it.steps
                 stats.setdefault("functions", set()).add(fn)
